@@ -261,6 +261,7 @@ inductive Op
   | new (sid codec role : Nat)
   | params (sid : Nat) (p : Params)
   | release (sid : Nat)
+  | unconf (sid : Nat)
   | cb (sid : Nat) (pol : CbPolicy)
   | ctrl (sid : Nat) (what : String)
   | payload (sid mode seed : Nat)
@@ -315,7 +316,7 @@ def buildStep (IO : SymIO σ) (s : Session σ) (p : Params) (cw : List σ) (esi 
   let encLib1 := if inRange then s.encLib.set esi (!own) else s.encLib
   let s1 := { s with enc := enc1, encLib := encLib1 }
   if !isEnc s then (s1, "ok st=FATAL")
-  else if !inRange then (s1, "ok st=ERROR")
+  else if !inRange then (s1, "ok st=FATAL")   -- refused by the generic layer (same range check as for submissions)
   else
     let src := (List.range p.k).map fun i => (enc1.get i).getD O.zero
     if s.codec == 3 then
@@ -351,6 +352,15 @@ def step (IO : SymIO σ) (w : World σ) (op : Op) : World σ × String :=
     match w.ses.get sid with
     | none => bad
     | some s => ({ w with ses := w.ses.set sid none }, s!"ok st=OK returned={returnedCount s} other=0")
+  | .unconf sid =>
+    -- submissions and repair requests on a session that has no parameters yet, or whose parameters were rejected (n = 0: every
+    -- ESI is out of range), are refused by the generic layer
+    match w.ses.get sid with
+    | none => bad
+    | some s =>
+      if s.params.isSome then (w, "bad-op configured")
+      else
+        (w, "ok recv=FATAL,FATAL,FATAL build=FATAL,FATAL,FATAL")
   | .cb sid pol =>
     match w.ses.get sid with
     | none => bad
